@@ -38,6 +38,9 @@ func (m *Mutex) Lock() {
 	m.mu.Lock()
 }
 
+// Held reports whether the mutex is held (cooperative mode only).
+func (m *Mutex) Held() bool { return m.held }
+
 func (m *Mutex) TryLock() bool {
 	if coop() {
 		vfsched.Yield()
@@ -167,6 +170,9 @@ type Cond struct {
 	real    *sync.Cond
 	waiters []*condTicket // cooperative mode only
 }
+
+// Waiting returns the number of cooperative waiters that have not been signalled.
+func (c *Cond) Waiting() int { return len(c.waiters) }
 
 func NewCond(l Locker) *Cond { return &Cond{L: l, real: sync.NewCond(l)} }
 
